@@ -335,7 +335,8 @@ func newEnvPickler() pickle.Pickler {
 
 // envPickler provides support for pickling functions and modules.
 //
-// - Builtins are pickled as (NEWOBJ "dawn" "Builtin" (name,))
+// - Builtins are pickled as (NEWOBJ "dawn" "Builtin" (name,)), methods bound to a value
+//   ("abc".upper, xs.append) as (NEWOBJ "dawn" "Builtin" (name, receiver))
 // - Function code is pickled as (NEWOBJ "dawn" "FunctionCode" (module, globals, bytecode))
 // - Functions are pickled as (NEWOBJ "dawn" "Function" (defaults, freevars, code, parameters)).
 func envPickler(x starlark.Value) (module, name string, args starlark.Tuple, err error) {
@@ -343,6 +344,9 @@ func envPickler(x starlark.Value) (module, name string, args starlark.Tuple, err
 	case *function:
 		return "dawn", "Target", starlark.Tuple{starlark.String(x.label.String())}, nil
 	case *starlark.Builtin:
+		if recv := x.Receiver(); recv != nil {
+			return "dawn", "Builtin", starlark.Tuple{starlark.String(x.Name()), recv}, nil
+		}
 		return "dawn", "Builtin", starlark.Tuple{starlark.String(x.Name())}, nil
 	case *starlark.FunctionCode:
 		module, globals := x.ModuleEnv()
@@ -384,7 +388,8 @@ func optionalDefaults(defaults starlark.Tuple) starlark.Tuple {
 
 // envUnpickler provides support for unpickling functions and modules.
 //
-//   - Builtins are unpickled from (NEWOBJ "dawn" "Builtin" (name,)) into name
+//   - Builtins are unpickled from (NEWOBJ "dawn" "Builtin" (name,)) into name, bound methods
+//     from (NEWOBJ "dawn" "Builtin" (name, receiver)) into (name, receiver)
 //   - Function code is unpickled from (NEWOBJ "dawn" "FunctionCode" (module, globals, bytecode))
 //     into a dictionary.
 //   - Functions are unpickled from (NEWOBJ "dawn" "Function" (defaults, freevars, code, parameters))
@@ -412,8 +417,10 @@ func envUnpickler(module, name string, args starlark.Tuple) (starlark.Value, err
 			return args, nil
 		case 1:
 			return args[0], nil
+		case 2:
+			return args, nil
 		default:
-			return nil, fmt.Errorf("expected at most 1 arg, got %v", len(args))
+			return nil, fmt.Errorf("expected at most 2 args, got %v", len(args))
 		}
 	case "FunctionCode":
 		if len(args) != 3 {
